@@ -20,6 +20,7 @@ from .common import VERIF_DIR
 
 NPROC = int(os.environ.get("VERIF_NPROC", "16"))
 KF_PATH = os.path.join(VERIF_DIR, "known_findings.json")
+OUT_DIR = os.environ.get("VERIF_OUT", VERIF_DIR)  # evidence/ and replays/ live here (mutation tool redirects it)
 
 
 def known_entries(pid):
@@ -32,12 +33,12 @@ def known_entries(pid):
 
 
 def write_replay(pid, name, payload):
-    d = os.path.join(VERIF_DIR, "replays", pid)
+    d = os.path.join(OUT_DIR, "replays", pid)
     os.makedirs(d, exist_ok=True)
     path = os.path.join(d, name + ".json")
     with open(path, "w") as fh:
         fh.write(common.dumps(payload, indent=None))
-    return os.path.relpath(path, VERIF_DIR)
+    return os.path.relpath(path, OUT_DIR)
 
 
 def fmt_fail(f):
@@ -250,8 +251,8 @@ def run_check(pid, tier):
         "wall_s": round(wall, 2),
         "violations": len(violations),
     }
-    os.makedirs(os.path.join(VERIF_DIR, "evidence"), exist_ok=True)
-    with open(os.path.join(VERIF_DIR, "evidence", f"{pid}.json"), "w") as fh:
+    os.makedirs(os.path.join(OUT_DIR, "evidence"), exist_ok=True)
+    with open(os.path.join(OUT_DIR, "evidence", f"{pid}.json"), "w") as fh:
         json.dump(ev, fh, indent=1, default=str)
         fh.write("\n")
 
@@ -296,7 +297,7 @@ def run_replay(pid, path):
 
     prop = worker.load_prop(pid)
     common.check_monitored_tree()
-    with open(path if os.path.isabs(path) else os.path.join(VERIF_DIR, path)) as fh:
+    with open(path if os.path.isabs(path) else os.path.join(OUT_DIR, path)) as fh:
         payload = common.loads(fh.read())
     case = payload["case"] if "case" in payload else payload
     rec = worker.run_case(prop, case)
@@ -350,6 +351,9 @@ def selftest():
 def main(argv):
     if argv and argv[0] == "--selftest":
         return selftest()
+    if argv and not os.path.exists(os.path.join(VERIF_DIR, "vlib", "props", argv[0].lower() + ".py")):
+        print(f"no check for {argv[0]}")
+        return 64
     if len(argv) >= 3 and argv[1] == "--replay":
         return run_replay(argv[0], argv[2])
     if len(argv) == 2 and argv[1] in ("quick", "thorough"):
